@@ -56,6 +56,11 @@ FAMILIES = {
     "lb_scan_quadratic": ("(?<=b.*)c", lambda n: "a" * n, True),
     "lb_scan_quadratic2": ("(?<!b.*)c", lambda n: "a" * n, True),
     "big_count": ("a{5000}b|(?:ab){1500}c", lambda n: "a" * min(n, 40), False),
+    # towers of uncounted quantifiers: a short pattern string must stay a short program
+    "plus_tower": ("(?:" * 18 + "a" + ")+" * 18, lambda n: "a" * min(n, 12), False),
+    "star_tower": ("(?:" * 18 + "ab" + ")*" * 18 + "c", lambda n: "ab" * min(n, 6) + "c", False),
+    "opt_tower": ("(" * 14 + "a" + ")?" * 14 + "b", lambda n: "a" * min(n, 3) + "b", False),
+    "lazy_plus_tower": ("(?:" * 16 + "a" + ")+?" * 16 + "$", lambda n: "a" * min(n, 8), False),
     "exact_repeat": ("a{200}b", lambda n: "a" * n, False),
     "long_literal": ("a" * 120 + "b", lambda n: "a" * n, False),
     "class_exact": ("[a-c]{150}d", lambda n: "abc" * (n // 3), False),
